@@ -25,6 +25,18 @@ pub fn replay(v: &Value) -> i32 {
     fs.extend(oracles::integrity(&l));
     fs.extend(oracles::no_panic_no_bug(&l));
     fs.extend(oracles::emitted_wellformed(&l));
+    {
+        let base = scenario::run(&scn, &[], &scenario::Abort::None);
+        fs.extend(crate::props::c03::judge_abort(&scn, &base, &abort, &l));
+    }
+    fs.extend(oracles::fin_emitted(&scn, &l));
+    {
+        let cancel = match &abort {
+            scenario::Abort::CancelAt(k, a) => l.wire.iter().find(|w| w.k == *k).map(|w| (w.t_us, if *a { scenario::Side::A } else { scenario::Side::B })),
+            _ => None,
+        };
+        fs.extend(oracles::termination(&scn, &l, cancel, scenario::RELEASE_BOUND_US));
+    }
     if matches!(abort, scenario::Abort::None) {
         fs.extend(oracles::progress(&scn, &l));
         if plan.is_empty() {
